@@ -134,9 +134,9 @@ pub async fn run(cfg: RunCfg) -> RunResult {
     }
 
     if std::env::var("VERIF_TIMING").is_ok() { eprintln!("t init {:?}", t0.elapsed()); }
-    let nwriters = rng.range(2, 3) as u32;
+    let nwriters = if cfg.thorough() { rng.range(2, 5) } else { rng.range(2, 3) } as u32;
     let nreaders = rng.range(1, 2) as u32;
-    let attempts = rng.range(1, 3) as u32;
+    let attempts = if cfg.thorough() { rng.range(2, 5) } else { rng.range(1, 3) } as u32;
     let obs: Arc<Mutex<Vec<Obs>>> = Arc::new(Mutex::new(Vec::new()));
     let mut actors = Vec::new();
     let mut tasks = Vec::new();
